@@ -1,6 +1,8 @@
 /-
-  Core engine (stage S2): well-formedness, replay, the invariant `Inv`, the frame relation `Ext`,
-  and the memo-installation lemma `inv_setMemo` (DESIGN.md §3, Appendix A.2).  Core Lean only.
+  CoreAcc engine (Core stage S2 + accumulators; adapted copy of CoreInv.lean): well-formedness,
+  replay / replayAcc, the invariant `Inv` (with the accumulator clauses `repAcc`, `a2`, `a3`), the
+  frame relation `Ext`, and the memo-installation lemma `inv_setMemo` (DESIGN.md §3, Appendix A.2).
+  Core Lean only.
 -/
 import SalsaVerif.Model.CoreAcc
 
